@@ -2,7 +2,7 @@
 import importlib
 import itertools
 
-from ..core import Case, guard, rt_run, log
+from ..core import Case, guard, rt_run, log, shash
 
 TRAITS = ['Debug', 'Clone', 'Copy', 'PartialEq', 'Eq', 'PartialOrd', 'Ord', 'Hash', 'Default', 'Deref', 'DerefMut', 'Into']
 NEEDS = {'Copy': ['Clone'], 'Eq': ['PartialEq'], 'PartialOrd': ['PartialEq'], 'Ord': ['PartialEq', 'Eq', 'PartialOrd'], 'DerefMut': ['Deref']}
@@ -214,6 +214,8 @@ def generate(tier):
         for c in mod.generate('quick'):
             if tier == 'quick' and c.depth > 3:
                 continue
+            if tier == 'quick' and c.depth == 3 and m in ('c02', 'c03', 'c10', 'c11') and shash(c.key) % 2:
+                continue        # the four largest spaces: every second state of the third deviation level (the owning checks run all of them)
             cases.append(Case('C01|%s' % c.key, c.body, c.spec, expect=c.expect, run=False, depth=c.depth))
     seen, out = set(), []
     for c in cases:
@@ -253,7 +255,7 @@ def check(v, tier):
     for c in cases[::step][:8]:
         v.sample({'key': c.key, 'program': c.body[:1200]})
     if tier == 'quick':
-        v.cap('quick tier: all 4095 trait subsets on two canonical shapes only (sizes 1, 2 and all on the other seven); behavioural request spaces restricted to at most three deviations from the plain derive')
+        v.cap('quick tier: all 4095 trait subsets on two canonical shapes only (sizes 1, 2 and all on the other seven); behavioural request spaces restricted to at most three deviations from the plain derive (every second state of the third level for the four largest spaces)')
     guard(len(cases) > 8000, 'too few C01 states')
     return v.finish('(a) trait dimension: every non-empty subset of the 12 traits (of the traits a shape supports) on canonical shapes {generic struct, generic two-variant enum; thorough: + tuple struct, '
                     'unit struct, single-variant enum, empty enum, enum with unit variants, struct with lifetime / bounded type / const parameters and a where-clause, union}, with the markers each trait '
